@@ -17,12 +17,12 @@ import (
 )
 
 func init() {
-	register(&Rule{Name: "MOD.index", Min: 60, Doc: "every index into the core is reduced modulo the core size", Run: ruleModIndex})
-	register(&Rule{Name: "MOD.store", Min: 60, Doc: "every value stored into a core field is reduced; whole cells are copies of valid cells", Run: ruleModStore})
-	register(&Rule{Name: "MOD.push", Min: 20, Doc: "every queued program counter is reduced", Run: ruleModPush})
+	register(&Rule{Name: "MOD.index", Min: 30, Doc: "every index into the core is reduced modulo the core size", Run: ruleModIndex})
+	register(&Rule{Name: "MOD.store", Min: 30, Doc: "every value stored into a core field is reduced; whole cells are copies of valid cells", Run: ruleModStore})
+	register(&Rule{Name: "MOD.push", Min: 10, Doc: "every queued program counter is reduced", Run: ruleModPush})
 	register(&Rule{Name: "MOD.report", Min: 30, Doc: "every warrior report carries a reduced address and a valid warrior index", Run: ruleModReport})
 	register(&Rule{Name: "NI", Min: 100, Doc: "absolute addresses flow only to indices, pushes and report addresses, never into stored data or branch conditions", Run: ruleNI})
-	register(&Rule{Name: "PAIR.report", Min: 60, Doc: "every core store is named by a write/increment/decrement report of the executing warrior at the same address within the task", Run: rulePairReport})
+	register(&Rule{Name: "PAIR.report", Min: 30, Doc: "every core store is named by a write/increment/decrement report of the executing warrior at the same address within the task", Run: rulePairReport})
 	register(&Rule{Name: "POP.report", Min: 1, Doc: "each executed task is announced by a task-pop report with its PC and warrior before it runs", Run: rulePopReport})
 	register(&Rule{Name: "SPAWN.mod", Min: 3, Doc: "every use of the load offset in spawn (core index, initial task, report) passes through % M", Run: ruleSpawnMod})
 	register(&Rule{Name: "MOD.len", Min: 2, Doc: "the core is only ever make([]Instruction, M)", Run: ruleModLen})
@@ -177,7 +177,7 @@ func ruleModIndex(w *World, r *RuleResult) {
 		return
 	}
 	d := newDedup(r)
-	for _, fn := range libFuncs(w) {
+	for _, fn := range libRoots(w) {
 		paths, err := w.Paths(fn)
 		if err != nil {
 			r.undecided(fn.Name(), w.Pos(fn.Pos()), err.Error())
@@ -209,7 +209,7 @@ func ruleModStore(w *World, r *RuleResult) {
 		return
 	}
 	d := newDedup(r)
-	for _, fn := range libFuncs(w) {
+	for _, fn := range libRoots(w) {
 		paths, err := w.Paths(fn)
 		if err != nil {
 			continue
@@ -261,7 +261,7 @@ func ruleModPush(w *World, r *RuleResult) {
 		return
 	}
 	d := newDedup(r)
-	for _, fn := range libFuncs(w) {
+	for _, fn := range libRoots(w) {
 		paths, err := w.Paths(fn)
 		if err != nil {
 			continue
@@ -325,7 +325,7 @@ func ruleModReport(w *World, r *RuleResult) {
 	}
 	wt := c.warriorReportTypes()
 	d := newDedup(r)
-	for _, fn := range libFuncs(w) {
+	for _, fn := range libRoots(w) {
 		paths, err := w.Paths(fn)
 		if err != nil {
 			continue
@@ -607,7 +607,7 @@ func ruleModLen(w *World, r *RuleResult) {
 		return
 	}
 	d := newDedup(r)
-	for _, fn := range libFuncs(w) {
+	for _, fn := range libRoots(w) {
 		paths, err := w.Paths(fn)
 		if err != nil {
 			continue
@@ -641,3 +641,7 @@ func isNewSimField(t *T, f string) bool {
 var _ = sort.Strings
 
 func ruleModCfg(w *World, r *RuleResult) {}
+
+// libRoots: the library functions analysed on their own (a helper that the
+// explorer expands at every use is judged inside its callers instead).
+func libRoots(w *World) []*ssa.Function { return w.rootFuncs(w.SLib) }
